@@ -202,3 +202,23 @@ func TestF10(t *testing.T) {
 		t.Fatalf("unexpected error %v", err)
 	}
 }
+
+func TestF11(t *testing.T) {
+	c := dig.New()
+	var f func() *A
+	noPanic(t, func() {
+		if c.Provide(f) == nil {
+			t.Fatal("nil func accepted by Provide")
+		}
+	})
+	noPanic(t, func() {
+		if c.Invoke(f) == nil {
+			t.Fatal("nil func accepted by Invoke")
+		}
+	})
+	noPanic(t, func() {
+		if c.Decorate(f) == nil {
+			t.Fatal("nil func accepted by Decorate")
+		}
+	})
+}
